@@ -501,6 +501,8 @@ def finish(ctx: Ctx, level: str = 'proof') -> int:
         'notes': ctx.notes,
         'deep_search': ctx.deep,
     }
+    if getattr(ctx, 'impl_coverage', None):
+        cov['impl_coverage'] = ctx.impl_coverage
     ev = {'property_id': ctx.prop, 'tier': ctx.tier, 'seed': ctx.seed, 'level': level, 'coverage': cov,
           'assumptions': ctx.assumptions, 'wall_s': round(wall, 2), 'violations': violations}
     EVIDENCE.mkdir(exist_ok=True)
